@@ -223,8 +223,8 @@ def main(argv=None):
         except Exception as e:  # the runner runs as __main__: mc.runner.HarnessError raised by a check is another class object
             if type(e).__name__ != "HarnessError":
                 raise
-            print(f"HARNESS-ERROR property={pid} {e}")
-            return 2
+            fin = {}
+            harness_fault = (harness_fault + "\n" if harness_fault else "") + f"HARNESS-ERROR property={pid} {e}"
         for v in fin.get("viol", []):
             agg["viol"].append((-1, v))
         extra_notes = fin.get("notes", {})
